@@ -3,6 +3,7 @@ replay artefacts, evidence files, and a fork-based work pool.
 
 Nothing in here knows about a particular property."""
 import collections
+import fnmatch
 import hashlib
 import json
 import multiprocessing
@@ -66,11 +67,20 @@ class Known:
             self.entries = json.load(open(path))['findings']
         self._known = {(e['property'], e['key']): e for e in self.entries if e.get('status') == 'known'}
 
+    def _match(self, prop, key):
+        e = self._known.get((prop, key))
+        if e is not None:
+            return e
+        for (p, pat), e in self._known.items():
+            if p == prop and ('*' in pat) and fnmatch.fnmatchcase(key, pat):
+                return e
+        return None
+
     def is_known(self, prop, key):
-        return (prop, key) in self._known
+        return self._match(prop, key) is not None
 
     def what(self, prop, key):
-        return self._known[(prop, key)]['what']
+        return self._match(prop, key)['what']
 
 
 KNOWN = Known()
